@@ -289,10 +289,7 @@ pub fn run(ctx: &Ctx, out: &mut Out) {
     for v in versions {
         for n in 1..=255usize {
             for c in classes {
-                if !ctx.thorough && !matches!(c, LeafClass::Random | LeafClass::AllEqual) && n % 7 != 0 && n > 20 {
-                    continue;
-                }
-                work.push((v, n, c));
+                        work.push((v, n, c));
             }
         }
     }
@@ -304,7 +301,7 @@ pub fn run(ctx: &Ctx, out: &mut Out) {
         out.obs("sizes_all_positions", 1);
     }
     // (b) ordered pairs of batch sizes on one reused tree
-    let lim = if ctx.thorough { 255 } else { 24 };
+    let lim = if ctx.thorough { 255 } else { 96 };
     let mut k = 0u64;
     let mut pairs_done = true;
     'outer: for v in versions {
@@ -326,7 +323,7 @@ pub fn run(ctx: &Ctx, out: &mut Out) {
     out.exhaustive = Some(pairs_done);
     out.extra.insert("pair_scope".into(), json!({"sizes": format!("1..={}", lim), "ordered_pairs_per_version": lim * lim, "completed": pairs_done}));
     // (c) random pairs over the whole range and longer sequences
-    for i in 0..ctx.share(500, 20_000) {
+    for i in 0..ctx.share(2_000, 20_000) {
         let v = *rng.pick(&versions);
         let a = rng.range(1, 255) as usize;
         let b = rng.range(1, 255) as usize;
@@ -336,7 +333,7 @@ pub fn run(ctx: &Ctx, out: &mut Out) {
             break;
         }
     }
-    for i in 0..ctx.share(200, 5_000) {
+    for i in 0..ctx.share(800, 5_000) {
         let v = *rng.pick(&versions);
         let len = rng.range(3, 8) as usize;
         let sizes: Vec<usize> = (0..len)
